@@ -388,6 +388,9 @@ pub fn run(tier: Tier, seed: u64) -> i32 {
     if !run.failed() {
         run.random("library", tier.pick(60_000, 2_500_000), 600, |b| case(b, false));
     }
+    if tier == Tier::Thorough && !run.failed() {
+        run.fuzz("libfuzzer", 1_500_000, 8, 600, fuzz_case);
+    }
     let code = run.finish();
     cleanup_scratch();
     code
@@ -405,4 +408,9 @@ pub fn replay(doc: &serde_json::Value) -> i32 {
         Outcome::Broken(_) => 2,
         _ => 0,
     }
+}
+
+/// entry point of the libFuzzer target
+pub fn fuzz_case(data: &[u8]) -> Outcome {
+    case(data, false)
 }
